@@ -694,9 +694,17 @@ class Interp:
                     return Ref("func", r[1])
                 if r[0] == "const":
                     v = self.folder.global_(func.module, e.id)
-                    if not isinstance(v, Unknown):
+                    if not is_unknown(v):
                         return v
-                    return Sym("global", e.id)
+                    key = (r[1].relpath, e.id)
+                    cache = self.__dict__.setdefault("_gcache", {})
+                    if key not in cache:
+                        cache[key] = Sym("global", e.id)
+                        try:
+                            cache[key] = self.eval(r[2], {}, _ModuleCtx(r[1]))
+                        except (Split, Raised):
+                            cache[key] = Sym("global", e.id)
+                    return cache[key]
                 if r[0] == "module":
                     return Sym("module", e.id)
         return Sym("name", e.id)
@@ -778,7 +786,33 @@ class Interp:
         return d
 
     def e_JoinedStr(self, e, env, func):
-        return Sym("fstring", ast.unparse(e)[:60])
+        tmpl, args = "", []
+        for v in e.values:
+            if isinstance(v, ast.Constant):
+                tmpl += str(v.value).replace("{", "{{").replace("}", "}}")
+            elif isinstance(v, ast.FormattedValue):
+                val = self.eval(v.value, env, func)
+                if v.conversion == 114:
+                    val = Sym("repr", val) if not _pyconst(val) else repr(val)
+                elif v.conversion == 115 and _pyconst(val):
+                    val = str(val)
+                spec = ""
+                if v.format_spec is not None:
+                    sp = self.e_JoinedStr(v.format_spec, env, func)
+                    if not isinstance(sp, str):
+                        return Sym("fstring", ast.unparse(e)[:60])
+                    spec = sp
+                tmpl += "{:%s}" % spec if spec else "{}"
+                args.append(val)
+            else:
+                return Sym("fstring", ast.unparse(e)[:60])
+        vals = [_int(a) for a in args]
+        if all(_pyconst(a) for a in vals):
+            try:
+                return tmpl.format(*vals)
+            except Exception:
+                pass
+        return Sym("strformat", tmpl, tuple(args))
 
     def e_IfExp(self, e, env, func):
         if self.truth(self.eval(e.test, env, func), e.test, func):
@@ -1272,6 +1306,14 @@ class Interp:
                 return _struct.calcsize(args[0])
         if name in _BUILTINS:
             return _BUILTINS[name](self, args, kwargs, e, func)
+        if isinstance(callee, Sym) and callee.op == "attr" and len(callee.args) == 2 and isinstance(callee.args[1], str):
+            # a method fetched with getattr(obj, "name") / a bound-method alias: same term as obj.name(...)
+            hm = self.hooks.get("method")
+            if hm:
+                r = hm(self, callee.args[0], callee.args[1], args, kwargs, e, func)
+                if r is not NotImplemented:
+                    return r
+            return Sym("call", callee, *args)
         return Sym("call", name or ast.unparse(e.func)[:40], *args)
 
     def call_method(self, recv, name, args, kwargs, e, env, func):
@@ -1340,6 +1382,20 @@ class Interp:
                 if isinstance(args[0], str):
                     return PackerV(args[0])
                 raise AnalysisError("%s: struct.Struct format %s is not a constant in the abstract domain" % (func.loc(e), show(args[0])[:80]))
+        if isinstance(recv, (BytesV, BufV)) and name in ("ljust", "rjust") and args and isinstance(_int(args[0]), int):
+            bv = _as_bytesv(recv)
+            if bv is not None:
+                fill = args[1] if len(args) > 1 else b" "
+                if isinstance(fill, (bytes, bytearray)) and len(fill) == 1:
+                    pad = [[(fill[0] >> i) & 1 for i in range(8)]] * max(0, _int(args[0]) - len(bv.bytes))
+                    return BytesV(bv.bytes + pad) if name == "ljust" else BytesV(pad + bv.bytes)
+        if isinstance(recv, Sym) and recv.op == "name" and recv.args[0] == "int" and name == "from_bytes" and args:
+            bv = _as_bytesv(args[0])
+            order = args[1] if len(args) > 1 else (kwargs or {}).get("byteorder", "big")
+            signed = (kwargs or {}).get("signed", False)
+            if bv is not None and order in ("little", "big") and isinstance(signed, bool):
+                by = bv.bytes if order == "little" else list(reversed(bv.bytes))
+                return field_bits(by, signed) if by else 0
         if isinstance(recv, StrV):
             if name == "split" and len(args) == 1 and isinstance(args[0], str) and args[0]:
                 sep = [ord(c) for c in args[0]]
@@ -1497,6 +1553,21 @@ class Interp:
         return BytesV(out)
 
 
+class _ModuleCtx:
+    """stands in for a Func when a module-level initialiser is evaluated"""
+
+    def __init__(self, module):
+        self.module = module
+        self.cls = None
+        self.qualname = "<module %s>" % module.relpath
+        self.file = module.relpath
+        self.line = 0
+        self.node = module.tree
+
+    def loc(self, node=None):
+        return "%s:%d" % (self.module.relpath, getattr(node, "lineno", 0))
+
+
 class CondV:
     """an undecided comparison.  `keys`: the source bits that decide it (split on those only);
     `refine`: (truth_value, {src: bit}) -- taking that outcome pins those source bits."""
@@ -1610,6 +1681,28 @@ def _b_int(it, args, kwargs, e, func):
     return Sym("int", *args)
 
 
+def _b_getattr(it, args, kwargs, e, func):
+    if len(args) >= 2 and isinstance(args[1], str):
+        obj, name = args[0], args[1]
+        if isinstance(obj, Obj):
+            if name in obj.attrs:
+                return obj.attrs[name]
+            f = obj.cls.lookup(name) if obj.cls else None
+            if f is not None:
+                return Bound(obj, f)
+            if len(args) == 3:
+                return args[2]
+        return Sym("attr", obj, name)
+    return Sym("getattr", *args)
+
+
+def _b_reversed(it, args, kwargs, e, func):
+    seq = it.concrete_iter(args[0]) if args else None
+    if seq is None:
+        return Sym("reversed", *args)
+    return list(reversed(seq))
+
+
 def _b_enumerate(it, args, kwargs, e, func):
     seq = it.concrete_iter(args[0]) if args else None
     if seq is None:
@@ -1674,7 +1767,7 @@ def _b_chr(it, args, kwargs, e, func):
     return Sym("chr", v)
 
 
-_BUILTINS = {"len": _b_len, "range": _b_range, "int": _b_int, "isinstance": _b_isinstance, "ord": _b_ord, "chr": _b_chr, "enumerate": _b_enumerate, "zip": _b_zip}
+_BUILTINS = {"len": _b_len, "range": _b_range, "int": _b_int, "isinstance": _b_isinstance, "ord": _b_ord, "chr": _b_chr, "enumerate": _b_enumerate, "zip": _b_zip, "getattr": _b_getattr, "reversed": _b_reversed}
 for _n in ("abs", "min", "max", "str", "float", "bool", "hex", "sorted", "list", "tuple", "bytes", "bytearray", "repr", "sum", "round", "pow"):
     _BUILTINS[_n] = _b_simple(_n)
 
